@@ -28,8 +28,7 @@ Definition pre (ss : list sv) (o : op) : bool :=
       (i <? length ss) && match sget ss i with SAlloc m l => length l + 1 <=? m | SNone => false end
   | OPopFront i | OPopBack i =>
       (i <? length ss) && match sget ss i with SAlloc _ (_ :: _) => true | _ => false end
-  | OCopyAssign i j => (i <? length ss) && (j <? length ss) && is_alloc (sget ss i) && is_alloc (sget ss j)
-  | OMoveAssign i j | OCopyCtor i j | OMoveCtor i j => (i <? length ss) && (j <? length ss) && is_alloc (sget ss j)
+  | OCopyAssign i j | OMoveAssign i j | OCopyCtor i j | OMoveCtor i j => (i <? length ss) && (j <? length ss) && is_alloc (sget ss j)
   end.
 
 Definition sstep (ss : list sv) (o : op) : list sv * option out :=
@@ -61,12 +60,12 @@ Fixpoint valid (ss : list sv) (ops : list op) : bool :=
 (** * Representation relation *)
 Definition R (r : ring) (v : sv) : Prop :=
   match v with
-  | SNone => data r = None /\ rbegin r = rend r
+  | SNone => data r = None /\ rbegin r = rend r /\ cap r = 0
   | SAlloc m l => data r <> None /\ Inv r /\ Abs r l /\ max_size r = m
   end.
 
 Lemma R_empty : R empty_ring SNone.
-Proof. split; reflexivity. Qed.
+Proof. repeat split; reflexivity. Qed.
 
 Lemma Forall2_nth {A B} (P : A -> B -> Prop) l1 l2 i a b :
   Forall2 P l1 l2 -> i < length l2 -> P (nth i l1 a) (nth i l2 b).
@@ -104,7 +103,7 @@ Qed.
 Lemma query_ok r v : R r v -> query r = squery v.
 Proof.
   destruct v as [|m l]; simpl.
-  - intros [Hd E]. unfold query, is_empty, contents. rewrite (size_none _ E). reflexivity.
+  - intros (Hd & E & _). unfold query, is_empty, contents. rewrite (size_none _ E). reflexivity.
   - intros (Hd & HI & HA & _). destruct (data r) as [d|] eqn:Ed; [|congruence].
     pose proof (Abs_length _ _ HA) as L. unfold query, is_empty. rewrite HA, <- L.
     destruct l as [|a l']; [reflexivity|].
@@ -115,7 +114,7 @@ Qed.
 Lemma R_destruct r v : R r v -> destruct_ring r = false.
 Proof.
   destruct v as [|m l]; simpl.
-  - intros [Hd E]. apply (destruct_ok r []); [unfold Inv; now rewrite Hd|congruence].
+  - intros (Hd & E & _). apply (destruct_ok r []); [unfold Inv; now rewrite Hd|congruence].
   - intros (Hd & HI & HA & _). apply (destruct_ok r l); auto.
 Qed.
 
@@ -141,12 +140,12 @@ Proof.
   - (* dealloc *)
     pose proof (Hg i Hp) as Ri. unfold setv, deallocate.
     destruct (sget ss i) as [|m' l'] eqn:Es; simpl in Ri.
-    + destruct Ri as [Hd E]. rewrite Hd. simpl. rewrite orb_false_r.
-      split; [reflexivity|split; [|reflexivity]]. apply Forall2_upd; auto. split; auto.
+    + destruct Ri as (Hd & E & C0). rewrite Hd. simpl. rewrite orb_false_r.
+      split; [reflexivity|split; [|reflexivity]]. apply Forall2_upd; auto. repeat split; auto.
     + destruct Ri as (Hd & HI & HA & _). destruct (data (getv s i)) as [d|] eqn:Ed; [|congruence].
       destruct (clear_ok _ d l' Ed HI HA) as (B & I1 & A1 & D1 & M1 & C1 & Z1).
       cbn [buf bad]. rewrite B, (empty_all_raw _ I1 Z1). simpl. rewrite orb_false_r.
-      split; [reflexivity|split; [|reflexivity]]. apply Forall2_upd; auto. simpl. split; auto.
+      split; [reflexivity|split; [|reflexivity]]. apply Forall2_upd; auto. simpl. split; auto. split; [|reflexivity].
       unfold Inv in I1. destruct (data (buf (clear (getv s i)))) eqn:E1; [|congruence].
       destruct I1 as (_ & ? & ? & ? & _).
       rewrite size_if in Z1 by lia. destruct (Nat.leb_spec (rbegin (buf (clear (getv s i)))) (rend (buf (clear (getv s i))))); lia.
@@ -183,24 +182,30 @@ Proof.
   - (* clear *)
     pose proof (Hg i Hp) as Ri. unfold setv.
     destruct (sget ss i) as [|m l] eqn:Es; simpl in Ri.
-    + destruct Ri as [Hd E]. rewrite (clear_none _ Hd E). simpl. rewrite orb_false_r.
+    + destruct Ri as (Hd & E & C0). rewrite (clear_none _ Hd E). simpl. rewrite orb_false_r.
       split; [reflexivity|split; [|reflexivity]].
-      apply Forall2_upd_left with SNone; auto. fold (sget ss i). rewrite Es. split; auto.
+      apply Forall2_upd_left with SNone; auto. fold (sget ss i). rewrite Es. repeat split; auto.
     + destruct Ri as (Hd & HI & HA & HM). destruct (data (getv s i)) as [d|] eqn:Ed; [|congruence].
       destruct (clear_ok _ d l Ed HI HA) as (B & I1 & A1 & D1 & M1 & C1 & Z1).
       simpl. rewrite B, orb_false_r. split; [reflexivity|split; [|reflexivity]].
       apply Forall2_upd; auto. simpl. repeat split; auto; congruence.
   - (* copy assign *)
     destruct (Nat.eqb_spec i j) as [->|NE]; [repeat split; auto|].
-    pose proof (Hg i Hp) as Ri. pose proof (Hg j H1) as Rj.
-    destruct (sget ss i) as [|mi li] eqn:Ei; [discriminate|].
+    pose proof (Hg i Hp) as Ri. pose proof (Hg j H0) as Rj.
     destruct (sget ss j) as [|mj lj] eqn:Ej; [discriminate|].
-    destruct Ri as (Hdi & HIi & HAi & HMi). destruct Rj as (Hdj & HIj & HAj & HMj).
-    destruct (data (getv s i)) as [di|] eqn:Edi; [|congruence].
+    destruct Rj as (Hdj & HIj & HAj & HMj).
     destruct (data (getv s j)) as [dj|] eqn:Edj; [|congruence].
-    destruct (copy_assign_ok _ di li _ dj lj Edi HIi HAi Edj HIj HAj) as (B & I1 & A1 & D1 & M1 & C1).
-    unfold setv; simpl. rewrite B, orb_false_r. split; [reflexivity|split; [|reflexivity]].
-    apply Forall2_upd; auto. simpl. repeat split; auto; congruence.
+    destruct (sget ss i) as [|mi li] eqn:Ei.
+    + (* onto an unallocated buffer *)
+      destruct Ri as (Hdi & Ei' & Ci).
+      destruct (copy_assign_none_ok _ _ dj lj Hdi Ei' Ci Edj HIj HAj) as (B & I1 & A1 & D1 & M1 & C1).
+      unfold setv; simpl. rewrite B, orb_false_r. split; [reflexivity|split; [|reflexivity]].
+      apply Forall2_upd; auto. simpl. repeat split; auto; congruence.
+    + destruct Ri as (Hdi & HIi & HAi & HMi).
+      destruct (data (getv s i)) as [di|] eqn:Edi; [|congruence].
+      destruct (copy_assign_ok _ di li _ dj lj Edi HIi HAi Edj HIj HAj) as (B & I1 & A1 & D1 & M1 & C1).
+      unfold setv; simpl. rewrite B, orb_false_r. split; [reflexivity|split; [|reflexivity]].
+      apply Forall2_upd; auto. simpl. repeat split; auto; congruence.
   - (* move assign *)
     destruct (Nat.eqb_spec i j) as [->|NE]; [repeat split; auto|].
     pose proof (Hg i Hp) as Ri. pose proof (Hg j H0) as Rj.
@@ -209,7 +214,7 @@ Proof.
     { unfold move_assign; simpl. pose proof (R_destruct _ _ Ri) as Dz. unfold destruct_ring in Dz. exact Dz. }
     unfold move_assign in *. simpl in *. unfold setv; simpl.
     rewrite B. simpl. rewrite !orb_false_r. split; [reflexivity|split; [|reflexivity]].
-    apply Forall2_upd; [apply Forall2_upd; auto|]; simpl; try exact Rj; try (split; reflexivity); try (rewrite Ej; exact Rj).
+    apply Forall2_upd; [apply Forall2_upd; auto|]; simpl; try exact Rj; try (repeat split; reflexivity); try (rewrite Ej; exact Rj).
   - (* copy ctor *)
     destruct (Nat.eqb_spec i j) as [->|NE]; [repeat split; auto|].
     pose proof (Hg i Hp) as Ri. pose proof (Hg j H0) as Rj.
@@ -226,7 +231,7 @@ Proof.
     destruct (sget ss j) as [|mj lj] eqn:Ej; [discriminate|].
     unfold setv, move_construct; simpl. rewrite (R_destruct _ _ Ri). simpl. rewrite !orb_false_r.
     split; [reflexivity|split; [|reflexivity]].
-    apply Forall2_upd; [apply Forall2_upd; auto|]; simpl; try exact Rj; try (split; reflexivity); try (rewrite Ej; exact Rj).
+    apply Forall2_upd; [apply Forall2_upd; auto|]; simpl; try exact Rj; try (repeat split; reflexivity); try (rewrite Ej; exact Rj).
   - (* query *)
     split; [reflexivity|split; [assumption|]]. f_equal. apply query_ok. apply Hg. assumption.
 Qed.
@@ -288,10 +293,22 @@ Lemma allocate_shipped_refuted :
   bad (push_back (buf (allocate rd 1)) 1) = false.
 Proof. vm_compute. repeat split. Qed.
 
+(** a(3) push 1; deallocate as shipped keeps capacity_ = 4; a = c with c(3) holding one element: the capacities are
+    equal, so no block is allocated and the element is constructed at data_ = nullptr.  With capacity_ reset the
+    same history is fine. *)
+Lemma deallocate_shipped_refuted :
+  let a0 := buf (push_back (make 3) 1) in
+  let c := buf (push_back (make 3) 2) in
+  data (buf (deallocate_shipped a0)) = None /\ cap (buf (deallocate_shipped a0)) = cap c /\
+  bad (copy_assign (buf (deallocate_shipped a0)) c) = true /\
+  bad (copy_assign (buf (deallocate a0)) c) = false /\
+  contents (buf (copy_assign (buf (deallocate a0)) c)) = [Some 2].
+Proof. vm_compute. repeat split. Qed.
+
 (** non-vacuity: a wrapping history satisfies [valid] *)
 Example valid_example :
   valid [SNone; SNone; SNone]
     [OAlloc 0 3; OPushBack 0 1; OPushBack 0 2; OPushFront 0 0; OPopBack 0; OPushBack 0 5; OPopFront 0;
      OPushBack 0 6; OQuery 0; OAlloc 1 1; OCopyAssign 1 0; OMoveCtor 2 1; OQuery 2; ODealloc 0; OAlloc 0 1;
-     OPushFront 0 4; OQuery 0] = true.
+     OPushFront 0 4; OQuery 0; ODealloc 1; OCopyAssign 1 2; OQuery 1; OCopyAssign 2 0; OQuery 2] = true.
 Proof. reflexivity. Qed.
